@@ -14,6 +14,18 @@
 //	CompareTo-zero-iff-equal scalars: a.cmp(b)==0 ⇔ a.Equals(b)
 //	CompareTo-type-order     different types: sign(a.cmp(b)) == sign(code(a)−code(b)), both directions
 //
+// and, over the HISTORY of calls (history.go: every built or decoded value, node by node, is
+// snapshotted and looked at again after every later constructor call, decode and comparison;
+// unrelated decodes — fed with reference encodings — run between building values and judging
+// the laws on them):
+//
+//	value-changed-by-unrelated-call   a live value's fields / encoding moved although it was not touched
+//	                                  (shapes after-constructor, after-decode, after-compare, older-value)
+//	constructor-independence          two values whose encodings differed at creation are one object
+//	result-changed-by-unrelated-call  an Equals / CompareTo result taken before unrelated decodes differs after them
+//	Equals-decoded-copy …/after-decode      a decoded copy that equalled its original no longer does after later decodes
+//	Equals-decoded-copy …/mixed-container   containers mixing different payloads of one type (both bools, several numbers …)
+//
 // Finding keys: <law>/<TypeA>×<TypeB>/<shape>. The shape is one small class name computed from
 // the worker's descriptions of the compared values (classify.go). For an irregular shape the
 // type part names the node where the shape arises (e.g. LongSummary×LongSummary for two lists
@@ -41,7 +53,7 @@ type item struct {
 func mk(s *spec) item {
 	led.op("build", s)
 	it := item{s: s, v: build(s)}
-	led.verify(shAfterCtor, func() string { return "building " + renderShort(s) })
+	led.verify(shAfterCtor, false, func() string { return "building " + renderShort(s) })
 	return it
 }
 
@@ -62,6 +74,7 @@ type mon struct {
 	noiseTypes map[byte]int64 // unrelated decodes per top-level type
 	mixedSeen  map[byte]int64 // decoded-copy law on containers mixing payloads of this type
 	held       []held         // (value, decoded copy) pairs of the running case, looked at again at its end
+	ctorTypes  map[byte]int64 // histories in which two live values of this type were built with different payloads
 }
 
 func (m *mon) cell(t string) {
@@ -139,6 +152,8 @@ func (m *mon) selfLaws(recipe string, a item) {
 		}
 	}
 
+	compared()
+
 	// the decoded copy, through golib's own WriteValue / ReadValue
 	var d value.Value
 	wire, p := encodeCatch(a.v)
@@ -175,6 +190,7 @@ func (m *mon) judgeDecoded(recipe string, a item, d value.Value, wire []byte) (e
 	where := func() { dsh, dt = nameDecodedFailure(a.s, a.v, d, dsh, dt) }
 	e1, p1 := eq(a.v, d)
 	e2, p2 := eq(d, a.v)
+	compared()
 	ok = p1 == nil && p2 == nil
 	c.Count("calls_Equals", 2)
 	c.Count("law_Equals_decoded_copy", 1)
@@ -307,6 +323,7 @@ func (m *mon) pairLaws(recipe string, a, b item) {
 			}
 		}
 	}
+	compared()
 	if c.WantSample() && (sh != shPlain || recipe == "matrix") {
 		c.Sample(map[string]interface{}{"kind": "pair", "recipe": recipe, "a": renderShort(a.s), "b": renderShort(b.s), "results": res})
 	}
@@ -338,6 +355,7 @@ func (m *mon) tripleLaws(recipe string, x [3]item) {
 			}
 		}
 	}
+	compared()
 	c.Count("calls_Equals", 6)
 	c.Count("calls_CompareTo", 6)
 	c.Count("law_totality", 12)
@@ -410,7 +428,7 @@ func decodedItem(a item) (item, bool) {
 
 func main() {
 	c := vlib.Start("C20")
-	m := &mon{c: c, cells: map[string]struct{}{}, noiseTypes: map[byte]int64{}, mixedSeen: map[byte]int64{}}
+	m := &mon{c: c, cells: map[string]struct{}{}, noiseTypes: map[byte]int64{}, mixedSeen: map[byte]int64{}, ctorTypes: map[byte]int64{}}
 	led = &ledger{m: m, byPtr: map[value.Value]int{}, noRing: c.Only != ""}
 
 	// wrap: every case runs inside the ledger of live values. nz is the stream of the case's
@@ -422,7 +440,7 @@ func main() {
 			m.held = m.held[:0]
 			nz := c.Rand("noise/" + id)
 			fn(i, r, nz)
-			led.verify(shAfterCmp, func() string { return "the Equals/CompareTo calls of the case" })
+			led.verify(shAfterCmp, true, func() string { return "the Equals/CompareTo calls of the case" })
 			m.recheckHeld(m.held)
 			led.end(nz)
 		}
@@ -811,11 +829,24 @@ func main() {
 				m.held = append(m.held, m.noise(nz, 1, s[j])...)
 			}
 		}
+		// constructor independence: values of one type built one after the other with different
+		// payloads (the ledger has looked at the earlier ones after each constructor call and
+		// knows whether two of them are one object)
+		for j := 0; j < 3; j++ {
+			for k := j + 1; k < 3; k++ {
+				if s[j].code == s[k].code && s[j].code != cNull && render(s[j]) != render(s[k]) {
+					c.Count("ctor_same_type_different_payloads", 1)
+					m.ctorTypes[s[j].code]++
+				}
+			}
+		}
 		before := takeResults(x[:])
+		compared()
 		c.Count("calls_Equals", 9)
 		c.Count("calls_CompareTo", 9)
 		m.held = append(m.held, m.noise(nz, 2+nz.Intn(5), s[nz.Intn(3)])...)
 		after := takeResults(x[:])
+		compared()
 		c.Count("calls_Equals", 9)
 		c.Count("calls_CompareTo", 9)
 		m.sameResults(x[:], before, after, shAfterDecode)
@@ -869,6 +900,7 @@ func main() {
 		}
 		c.Floor("noise_decodes_least_covered_type", nh/400/sh, minOf(m.noiseTypes, allCodes))
 		c.Floor("decoded_copy_mixed_container_least_covered_type", int64(c.N(300000, 7000000))/8000/sh, minOf(m.mixedSeen, allCodes[1:]))
+		c.Floor("ctor_same_type_different_payloads_least_covered_type", nh/300/sh, minOf(m.ctorTypes, allCodes[1:]))
 		c.Floor("decoded_copy_mixed_container_bools", int64(c.N(300000, 7000000))/2000/sh, m.mixedSeen[cBool])
 	}
 	c.Finish()
